@@ -270,7 +270,7 @@ Definition rejected (cfg : config) (strict : bool) (ts : list token) : Prop :=
   forall atoms, select_tokens cfg strict atoms ts = Rejected.
 
 Lemma parse_none_rejected : forall cfg strict ts, parse_all cfg ts = None -> rejected cfg strict ts.
-Proof. intros cfg strict ts H atoms. unfold select_tokens, compile_tokens. rewrite H. reflexivity. Qed.
+Proof. intros cfg strict ts H atoms. unfold select_tokens, run_compiled, compile_tokens, compile_parsed. rewrite H. reflexivity. Qed.
 
 (* empty input; unbalanced parentheses; a character no grammar element consumes; an operator (or an opening
    parenthesis) at the end; a non-unary operator or a closing parenthesis at the start *)
@@ -347,7 +347,7 @@ Qed.
 Theorem malformed_tree_rejected : forall cfg strict ts e e',
   parse_all cfg ts = Some e -> sub e' e -> refused_node cfg e' -> rejected cfg strict ts.
 Proof.
-  intros cfg strict ts e e' Hp Hs Hr atoms. unfold select_tokens, compile_tokens. rewrite Hp.
+  intros cfg strict ts e e' Hp Hs Hr atoms. unfold select_tokens, run_compiled, compile_tokens, compile_parsed. rewrite Hp.
   destruct (ctor_ok cfg e) eqn:Hc; [|reflexivity].
   pose proof (ctor_ok_sub cfg e' e Hs Hc) as Hc'. rewrite (refused_node_ctor cfg e' Hr) in Hc'. discriminate.
 Qed.
@@ -359,7 +359,7 @@ Theorem single_literal_rejected_fix : forall cfg ts l,
   (forall w, l = LWord w -> mem_str w safe_names = false) ->
   rejected cfg true ts.
 Proof.
-  intros cfg ts l Hp Hw atoms. unfold select_tokens, compile_tokens. rewrite Hp. cbn [ctor_ok negb to_py].
+  intros cfg ts l Hp Hw atoms. unfold select_tokens, run_compiled, compile_tokens, compile_parsed. rewrite Hp. cbn [ctor_ok negb to_py].
   destruct l as [w|s|s]; cbn [lit_py].
   - rewrite (Hw w eq_refl). destruct (mem_str w (py_kwlist cfg)); [reflexivity|]. cbn [rewrite_names].
     assert (Hn : forall x, mem_str w safe_names = false -> In x safe_names -> String.eqb w x = false).
@@ -378,7 +378,7 @@ Theorem single_literal_rejected_cur : forall cfg ts l,
   (forall s m e, l = LNum s -> num_value s = Some (m, e) -> m <> 0%Z /\ m <> pow10 e) ->
   rejected cfg false ts.
 Proof.
-  intros cfg ts l Hp Hw Hnum atoms. unfold select_tokens, compile_tokens. rewrite Hp. cbn [ctor_ok negb to_py].
+  intros cfg ts l Hp Hw Hnum atoms. unfold select_tokens, run_compiled, compile_tokens, compile_parsed. rewrite Hp. cbn [ctor_ok negb to_py].
   destruct l as [w|s|s]; cbn [lit_py].
   - rewrite (Hw w eq_refl). destruct (mem_str w (py_kwlist cfg)); [reflexivity|]. cbn [rewrite_names].
     assert (Hn : forall x, In x safe_names -> String.eqb w x = false).
@@ -434,7 +434,7 @@ Theorem compare_chain_rejected : forall cfg strict ts e0 p1 p2 rest c,
   chain_sem cfg (p1 :: p2 :: rest) = Some (SCmp c) ->
   rejected cfg strict ts.
 Proof.
-  intros cfg strict ts e0 p1 p2 rest c Hp Hc atoms. unfold select_tokens, compile_tokens. rewrite Hp.
+  intros cfg strict ts e0 p1 p2 rest c Hp Hc atoms. unfold select_tokens, run_compiled, compile_tokens, compile_parsed. rewrite Hp.
   destruct (negb (ctor_ok cfg _)); [reflexivity|]. rewrite to_py_bin, Hc.
   destruct (to_py cfg e0) as [q0|]; [|reflexivity].
   destruct (to_py_rest cfg (p1 :: p2 :: rest)) as [qs|] eqn:Hq; [|reflexivity].
